@@ -188,7 +188,7 @@ MUST_TAKE = ["SubscribeRecent", "SubscribeAt", "Leave", "Ready", "Subscribe", "F
 def replay_config(ctx, rp, c, tag, must=MUST_TAKE, max_paths=None, extra_random=0, key_fn=None):
     def hdr(k, st0, c=c):
         return {"min": c["MinLen"], "max": c["MaxLen"], "wake": "handle" if k % 2 else "fn",
-                "single": ("rvalue", "lvalue", "range")[k % 3]}
+                "single": ("rvalue", "lvalue", "range")[k % 3], "block": ("bool", "iter")[(k // 2) % 2]}
     with fast_cover():
         return graph_replay(ctx, "Publisher", "Publisher", "Publisher_seq.cfg", tag, rp, proj, header_fn=hdr,
                             merge_re=r"(Wake|WFetch)$", must_take=must, constants=c, max_paths=max_paths,
@@ -238,17 +238,26 @@ def run(ctx):
                (2, 2, ["behind"], '{"split", "block"}', 0, 2, [])]
         cap = 2500
     else:
+        # every (min,max) in 1..5 + unlimited, all three modes; the deeper stream for a sample
         solo = []
         for mode in ("all", "behind", "recent"):
             for mn in (1, 2, 3, 4, 5):
                 for mx in (1, 2, 3, 4, 5, U):
                     if mx >= mn:
-                        solo.append((mn, mx, mode, 5 if mx >= 3 else 4, 3))
+                        solo.append((mn, mx, mode, 4, 3 if (mn + mx) % 2 else 2))
+            for (mn, mx) in ((1, U), (1, 2), (2, 3)):
+                solo.append((mn, mx, mode, 5, 3))
         duo = []
-        for (mn, mx) in ((1, 1), (1, 2), (2, 3), (1, U), (3, U)):
+        k = 0
+        for (mn, mx) in ((1, 1), (1, 2), (2, 3), (1, U)):
             for modes in (["all"], ["behind"], ["recent"], ["all", "recent"]):
-                duo.append((mn, mx, modes, '{"split"}', 1, 3 if len(modes) == 1 else 2, [0]))
-                duo.append((mn, mx, modes, '{"coro", "loop", "poll", "block"}', 0, 3 if len(modes) == 1 else 2, [0]))
+                k += 1
+                if k % 2:
+                    duo.append((mn, mx, modes, '{"split"}', 1, 2, [0]))
+                else:
+                    duo.append((mn, mx, modes, '{"coro", "loop", "poll", "block"}', 0, 2, [0]))
+        duo.append((1, 2, ["all"], '{"split"}', 0, 3, [0]))
+        duo.append((1, U, ["recent"], '{"loop", "poll"}', 0, 3, []))
         cap = None
     for (mn, mx, mode, pub, batch) in solo:
         c = consts(1, mn, mx, [mode], pub=pub, batch=batch, join=2)
@@ -260,8 +269,7 @@ def run(ctx):
         replay_config(ctx, rp, c, "duo%d_" % k + label(c), must=must_for(styles, kick, at), max_paths=cap)
     vlib.log("  C16 duo configurations done: %.0fs" % (time.time() - t0))
     # three subscribers: registration array / free list / wake order
-    c = consts(3, 1, 2, ["all"], styles='{"loop"}' if ctx.quick else '{"loop", "coro"}', pub=1 if ctx.quick else 2, batch=2, join=4,
-               kick=0, at=[])
+    c = consts(3, 1, 2, ["all"], styles='{"loop"}' if ctx.quick else '{"loop", "coro"}', pub=1, batch=1, join=4, kick=0, at=[])
     replay_config(ctx, rp, c, "trio", must=must_for('{"loop"}', 0, []), max_paths=cap)
     # a subscriber copied while it is parked (separate key: own defect of the pinned tree)
     c = consts(2, 1, U, ["all"], styles='{"split", "coro"}', pub=2, batch=1, join=2, kick=0, at=[], copybusy=True)
